@@ -102,6 +102,7 @@ pub const TAG_NAMES: &[&str] = &[
     "fqzcomp record longer than the 1024-entry position table",
     "name_tokenizer round trip",
     "rans_4x8 final decoder states equal the specified start state",
+    "gzip member read back by the independent inflater (header, raw deflate, CRC-32, ISIZE)",
 ];
 pub const T_O1_REJECT: usize = 0;
 pub const T_4X8_REF: usize = 1;
@@ -116,8 +117,9 @@ pub const T_FQZ_VAR: usize = 15;
 pub const T_FQZ_LONG: usize = 16;
 pub const T_NAMES_OK: usize = 17;
 pub const T_4X8_STATES: usize = 18;
+pub const T_GZIP_REF: usize = 19;
 
-static TAGS: [AtomicU64; 19] = [const { AtomicU64::new(0) }; 19];
+static TAGS: [AtomicU64; 20] = [const { AtomicU64::new(0) }; 20];
 
 fn tag(t: usize) {
     TAGS[t].fetch_add(1, Ordering::Relaxed);
@@ -166,6 +168,7 @@ fn bytes_case(i: u64, items: &[Item], confs: &[Conf]) -> Outcome {
             if seen.ref_agreed {
                 tag(match conf {
                     Conf::R4x8(_) => T_4X8_REF,
+                    Conf::Gp(_) => T_GZIP_REF,
                     _ => T_NX16_REF,
                 });
             }
@@ -584,6 +587,20 @@ fn main() {
                 }
             }
             bytes_harness(ctx, "bytes_len64k", &big2, &rans);
+        }
+
+        // (2b) large inputs for gzip/bzip2/xz: one write whose compressed output is far beyond the
+        // encoders' internal buffers (a short write in the wrapper only shows from ~96 KiB of poorly
+        // compressible data on); gzip members are also read by an independent inflater
+        {
+            let lens: &[usize] = if quick { &[98304, 262144] } else { &[65536, 98304, 131072, 262144, (1 << 20) + 3] };
+            let mut large = Vec::new();
+            for &l in lens {
+                for c in 0..corpus::LARGE_CLASSES.len() {
+                    large.push(corpus::large(c, l));
+                }
+            }
+            bytes_harness(ctx, "gp_large", &large, &gp);
         }
 
         // (3a) dominant symbol + k rare symbols: the over-shoot side of the frequency normalisers
